@@ -1,6 +1,6 @@
 (* C07, part 2 (continued): the planner chain of a query of in_fragment2 keeps the invariant of LogqlSem2Base.v
    stage by stage; the labels join is the base case; ORDER BY / LIMIT / the final select give logql_sem2. *)
-From Coq Require Import List ZArith NArith QArith String Ascii Bool Lia Permutation.
+From Coq Require Import List ZArith NArith QArith String Ascii Bool Lia Permutation Sorted.
 From Qryn Require Import lib.Strs model.Sql model.SqlRender model.Logql model.LogqlRegexp model.LogqlPlan model.SqlEval model.LogqlSem
   proofs.SqlEvalProofs proofs.LogqlSemProofs proofs.LogqlRegexpProofs.
 From Qryn Require Import proofs.LogqlSem2Base.
@@ -262,9 +262,9 @@ Section PLAN2.
       destruct Ht as [<-|Ht]; [now left|right; now apply IH].
     Qed.
 
-    Lemma pinv_join :
+    Lemma pinv_join_gen (wl : bool) :
       pinv (PLabelsJoin (PMainOrderBy ["timestamp_ns"] (lf_wrap (lfts pre) (PFingerprintFilter (fp_planner ms (slfs pre)) PMainInit)))
-                        (fp_planner ms (slfs pre)) PTimeSeriesInit true) pre MFresh true.
+                        (fp_planner ms (slfs pre)) PTimeSeriesInit wl) pre MFresh true.
     Proof.
       assert (Hfs : forall f, List.In f (slfs pre) -> lf_supported f = true /\ lf_oracle_ok parse_float f).
       { intros f Hf. apply slfs_in2 in Hf. split.
@@ -315,6 +315,10 @@ Section PLAN2.
           rewrite (A7 ev_id_src) by (assumption || reflexivity). reflexivity.
         + discriminate.
     Qed.
+    Lemma pinv_join :
+      pinv (PLabelsJoin (PMainOrderBy ["timestamp_ns"] (lf_wrap (lfts pre) (PFingerprintFilter (fp_planner ms (slfs pre)) PMainInit)))
+                        (fp_planner ms (slfs pre)) PTimeSeriesInit true) pre MFresh true.
+    Proof. exact (pinv_join_gen true). Qed.
   End BASE.
 
   (* ================= the planner of a fragment query: filters, then the first relabelling stage, then anything ================= *)
@@ -425,6 +429,43 @@ Section PLAN2.
     - apply Permutation_map. eapply Permutation_trans; [apply isort_perm|exact Hperm].
   Qed.
 
+  (* the outermost select of Plan(script, false): ORDER BY timestamp_ns only *)
+  Definition bp_final_select (req : select) : select :=
+    set_orderby [Ord (Id "timestamp_ns") (c_asc c)]
+      (set_from (WRef "prefinal" req)
+        (set_cols [SimpleCol "prefinal.fingerprint" "fingerprint"; SimpleCol "prefinal.labels" "labels";
+                   SimpleCol "prefinal.string" "string"; SimpleCol "prefinal.timestamp_ns" "timestamp_ns"]
+          (with_ [("prefinal", req)] empty_select))).
+  Lemma es_final_bp req swap (pl : list lstate) : ES req = Some (map (st_row swap) pl) ->
+    exists pl', Permutation pl' pl /\ ES (bp_final_select req) = Some (map fin_row2 (isort (lts_leb c) pl')).
+  Proof.
+    intros Hr.
+    destruct (order_groups_gen re_match parse_float json_get hash_labels tie tie_perm c d [Ord (Id "timestamp_ns") (c_asc c)]
+                (fun t => [(fin_row2 t ++ env_of "prefinal" (st_row swap t))%list])
+                (fun t => [VInt (x_ts (fst t))]) pl)
+      as [pl' [Hperm Hord]]; [discriminate|reflexivity|reflexivity|].
+    exists pl'. split; [exact Hperm|].
+    rewrite (A7 esel_flat) by reflexivity.
+    change (s_from (bp_final_select req)) with (Some (WRef "prefinal" req)).
+    change (s_prewhere (bp_final_select req)) with (@None expr). change (s_where (bp_final_select req)) with (@None expr).
+    change (s_limit (bp_final_select req)) with (@None expr).
+    change (s_orderby (bp_final_select req)) with [Ord (Id "timestamp_ns") (c_asc c)].
+    change (s_cols (bp_final_select req)) with
+        [SimpleCol "prefinal.fingerprint" "fingerprint"; SimpleCol "prefinal.labels" "labels";
+         SimpleCol "prefinal.string" "string"; SimpleCol "prefinal.timestamp_ns" "timestamp_ns"].
+    cbn iota beta. rewrite (A7 et_wref), Hr. cbn [option_map]. rewrite qualify_map, map_map.
+    rewrite (map_ext _ (fun t => (fin_row2 t ++ env_of "prefinal" (st_row swap t))%list)) by (intros t; destruct swap; reflexivity).
+    rewrite (filter_opt_total _ (fun _ => true)) by (intros r _; reflexivity).
+    rewrite filter_true, map_map.
+    match goal with |- match ?O with _ => _ end = _ => pose proof (Hord : O = _) as HO; rewrite HO end.
+    rewrite (isort_ext _ (lts_leb c)) by (intros a b; unfold ord_dirs; cbn [map]; apply keys_leb_1).
+    apply (map_opt_map_total _ _ fin_row2). intros t _. destruct swap; reflexivity.
+  Qed.
+
+  Lemma process_finalizer_bp P sel st' P' : process P c st0 = Some (sel, st', P') -> c_finalize c = true ->
+    process (PMainFinalizer P false false) c pst0 = Some (bp_final_select sel, st', PMainFinalizer P' false false).
+  Proof. intros H Hf. cbn [process]. rewrite H. cbn [bind]. rewrite Hf. reflexivity. Qed.
+
   Lemma src_rows_set_orderby o q : A7 src_rows (set_orderby o q) = A7 src_rows q.
   Proof. reflexivity. Qed.
   Lemma src_rows_set_limit l q : A7 src_rows (set_limit l q) = A7 src_rows q.
@@ -434,6 +475,58 @@ Section PLAN2.
   Lemma lts_leb_trans a b e : lts_leb c a b = true -> lts_leb c b e = true -> lts_leb c a e = true.
   Proof. unfold lts_leb, ts_leb. destruct (c_asc c); rewrite !Z.leb_le; lia. Qed.
 
+  Lemma sorted_mkout2 L : StronglySorted (fun a b => lts_leb c a b = true) L ->
+    ts_sorted (c_asc c) (map mkout2 L).
+  Proof.
+    unfold ts_sorted. induction 1 as [|t l Hs IH Hall]; cbn [map]; constructor; [exact IH|].
+    rewrite Forall_forall in *. intros o Ho. apply in_map_iff in Ho. destruct Ho as [u [<- Hu]].
+    specialize (Hall u Hu). unfold lts_leb, ts_leb in Hall. cbn [mkout2 o_ts].
+    destruct (c_asc c); now apply Z.leb_le.
+  Qed.
+
+  (* Plan(script, false) of a pipeline of filters only (the usual prefix in front of `| json` / `| logfmt` / line_format):
+     the labels join closes the plan, the outermost select orders by timestamp *)
+  Section BP1.
+    Variable ppl : list stage.
+    Hypothesis Hsup : forallb stage_supported ppl = true.
+    Hypothesis Hor1 : forall s, List.In s ppl -> stage_oracle_ok re_match parse_float s.
+    Let q1 := {| sel_matchers := ms; sel_pipeline := ppl |}.
+
+    Lemma plan_log_fragment_bp :
+      plan_log q1 false =
+      Some (PMainFinalizer
+              (PLabelsJoin (PMainOrderBy ["timestamp_ns"]
+                              (lf_wrap (lfts ppl) (PFingerprintFilter (fp_planner ms (slfs ppl)) PMainInit)))
+                           (fp_planner ms (slfs ppl)) PTimeSeriesInit false) false false).
+    Proof.
+      unfold plan_log, q1. cbn [sel_pipeline sel_matchers].
+      rewrite (sup_no_parser ppl Hsup), (sup_lji ppl 0 Hsup), (sup_renew ppl 0 Hsup).
+      unfold plan_ts. rewrite (sup_plan_ts ppl _ Hsup). fold (fp_planner ms (slfs ppl)).
+      rewrite (sup_plan_spl _ ppl 0%nat _ Hsup). reflexivity.
+    Qed.
+
+    Theorem bp_plan1_correct :
+      exists sel rows outs,
+        bp_select q1 c = Some sel
+        /\ eval re_match parse_float json_get hash_labels tie (to_sqldb c d) sel = Some rows
+        /\ map row_out rows = map Some outs
+        /\ Permutation outs (log_rows2 re_match parse_float json_get hash_labels q1 c d)
+        /\ ts_sorted (c_asc c) outs.
+    Proof.
+      destruct (pinv_join_gen ppl Hsup Hor1 false) as [sel [st' [cur' [Hproc Hs]]]].
+      destruct (ctx_names c Hctx) as [_ [_ [_ [_ [_ [Hfin Hl0]]]]]].
+      destruct (A7 sinv_closed ms sel ppl MFresh true Hs) as [U [HU HpermU]].
+      destruct (es_final_bp sel true U HU) as [pl' [Hpl' Hfinal]].
+      exists (bp_final_select sel), (map fin_row2 (isort (lts_leb c) pl')), (map mkout2 (isort (lts_leb c) pl')).
+      split; [|split; [exact Hfinal|split; [|split]]].
+      - unfold bp_select. rewrite plan_log_fragment_bp. rewrite (process_finalizer_bp _ _ _ _ Hproc Hfin). reflexivity.
+      - rewrite !map_map. apply map_ext. intros t. reflexivity.
+      - unfold q1. rewrite log_rows2_live. apply Permutation_map.
+        eapply Permutation_trans; [apply isort_perm|]. eapply Permutation_trans; [exact Hpl'|exact HpermU].
+      - apply sorted_mkout2. apply (isort_sorted (lts_leb c) lts_leb_total lts_leb_trans).
+    Qed.
+  End BP1.
+
   Section FINAL.
     Variable ppl : list stage.
     Hypothesis Hfrag : forallb frag_stage ppl = true.
@@ -441,8 +534,9 @@ Section PLAN2.
     Hypothesis Hor : forall s, List.In s ppl -> stage_oracle_ok re_match parse_float s.
     Let q := {| sel_matchers := ms; sel_pipeline := ppl |}.
 
-    Lemma plan_log2 : exists p m swap,
-      plan_log q true = Some (PMainFinalizer (PMainLimit (PMainOrderBy ["timestamp_ns"] p)) false true) /\ pinv p ppl m swap.
+    Lemma plan_log2_fin fin : exists p m swap,
+      plan_log q fin = Some (PMainFinalizer (if fin then PMainLimit (PMainOrderBy ["timestamp_ns"] p) else PMainOrderBy ["timestamp_ns"] p)
+                                            false fin) /\ pinv p ppl m swap.
     Proof.
       destruct (frag_split ppl Hfrag Hex) as [pre [s0 [rest [E [Hpre H0]]]]].
       assert (Hrel : is_relabel s0 = true) by (destruct s0; cbn in H0; try discriminate H0; reflexivity).
@@ -480,8 +574,11 @@ Section PLAN2.
       unfold plan_ts. rewrite (pre_plan_ts (s0 :: rest) pre _ Hpre). fold (fp_planner ms (slfs pre)).
       rewrite (pre_plan_spl (s0 :: rest) (fp_planner ms (slfs pre)) pre 0 (List.length pre) _ Hpre eq_refl).
       rewrite renew_after_cons by lia. cbn [map plan_spl]. rewrite Nat.eqb_refl, Nat.leb_refl.
-      rewrite Hps, Hpl. reflexivity.
+      rewrite Hps, Hpl. destruct fin; reflexivity.
     Qed.
+    Lemma plan_log2 : exists p m swap,
+      plan_log q true = Some (PMainFinalizer (PMainLimit (PMainOrderBy ["timestamp_ns"] p)) false true) /\ pinv p ppl m swap.
+    Proof. exact (plan_log2_fin true). Qed.
 
     Theorem log_plan2_correct :
       exists sel rows outs,
@@ -530,8 +627,60 @@ Section PLAN2.
             specialize (Hord x y Hx Hy). unfold lts_leb, ts_leb in Hord. cbn [mkout2 o_ts].
             destruct (c_asc c); now apply Z.leb_le.
     Qed.
+
+    (* Plan(script, false): every line the pipeline lets through, whatever ctx.Limit says, in timestamp order *)
+    Theorem bp_plan2_correct :
+      exists sel rows outs,
+        bp_select q c = Some sel
+        /\ eval re_match parse_float json_get hash_labels tie (to_sqldb c d) sel = Some rows
+        /\ map row_out rows = map Some outs
+        /\ Permutation outs (log_rows2 re_match parse_float json_get hash_labels q c d)
+        /\ ts_sorted (c_asc c) outs.
+    Proof.
+      destruct (plan_log2_fin false) as [p [m [swap [Hplan [sel [st' [cur' [Hproc Hs]]]]]]]].
+      destruct (ctx_names c Hctx) as [_ [_ [_ [_ [_ [Hfin Hl0]]]]]].
+      destruct Hs as [e_ts [e_fp [e_lab [e_str [e_val [w [T [src [out [keep [Hf [Hsrc [Hcs [Hstr [Hw [Hperm _]]]]]]]]]]]]]]]].
+      pose (sel_o := set_orderby [Ord (Id "timestamp_ns") (c_asc c)] sel).
+      assert (Hf' : flat5 sel_o (cols5 swap e_ts e_fp e_lab e_str e_val) w [Ord (Id "timestamp_ns") (c_asc c)] None).
+      { unfold sel_o. eapply flat5_set_orderby. exact Hf. }
+      assert (Hsrc' : A7 src_rows sel_o = Some (map src T)) by (unfold sel_o; rewrite src_rows_set_orderby; exact Hsrc).
+      destruct (es_five_sorted_nl re_match parse_float json_get hash_labels tie tie_perm c d sel_o swap e_ts e_fp e_lab e_str e_val w T src out keep
+                  Hf' Hsrc' Hcs (A7 wsem_cond w T _ keep Hw)) as [ys [Hys Hes]].
+      destruct (es_final_bp sel_o swap _ Hes) as [pl' [Hpl' Hfinal]].
+      exists (bp_final_select sel_o), (map fin_row2 (isort (lts_leb c) pl')), (map mkout2 (isort (lts_leb c) pl')).
+      split; [|split; [exact Hfinal|split; [|split]]].
+      - unfold bp_select. rewrite Hplan. cbn [process]. rewrite Hproc. cbn [bind]. rewrite Hfin. cbn [negb map]. reflexivity.
+      - rewrite !map_map. apply map_ext. intros t. reflexivity.
+      - unfold q. rewrite log_rows2_live. apply Permutation_map.
+        eapply Permutation_trans; [apply isort_perm|]. eapply Permutation_trans; [exact Hpl'|].
+        eapply Permutation_trans; [apply isort_perm|]. eapply Permutation_trans; [exact Hys|exact Hperm].
+      - apply sorted_mkout2. apply (isort_sorted (lts_leb c) lts_leb_total lts_leb_trans).
+    Qed.
   End FINAL.
 End PLAN2.
+
+Theorem logql_breakpoint_plan_proof :
+  forall (RG : ReGroups) re_match parse_float json_get hash_labels (tie : forall A : Type, list A -> list A),
+    (forall A (l : list A), Permutation (tie A l) l) ->
+    forall q c d, in_fragment q || in_fragment2 q = true -> oracle_ok re_match parse_float q -> ctx_ok c = true -> db_ok c d ->
+    width_guard q = true -> absent_guard re_match q d ->
+    bp_correct2 re_match parse_float json_get hash_labels tie q c d.
+Proof.
+  intros RG re_match parse_float json_get hash_labels tie Htie [ms ppl] c d Hfrag Hor Hctx Hdb Hw Hg.
+  unfold width_guard in Hw. cbn [sel_matchers] in Hw. apply Nat.leb_le in Hw.
+  destruct (in_fragment {| sel_matchers := ms; sel_pipeline := ppl |}) eqn:E1.
+  { unfold in_fragment in E1. cbn [sel_matchers sel_pipeline] in E1. apply andb_prop in E1. destruct E1 as [Hne Hsup].
+    apply (bp_plan1_correct re_match parse_float json_get hash_labels tie Htie c d Hctx ms Hdb); try assumption.
+    - intros ->. discriminate.
+    - lia. }
+  cbn [orb] in Hfrag. apply Nat.leb_le in Hw.
+  unfold in_fragment2 in Hfrag. cbn [sel_matchers sel_pipeline] in Hfrag.
+  apply andb_prop in Hfrag. destruct Hfrag as [Hfrag Hex]. apply andb_prop in Hfrag. destruct Hfrag as [Hne Hall].
+  unfold width_guard in Hw. cbn [sel_matchers] in Hw. apply Nat.leb_le in Hw.
+  apply (bp_plan2_correct re_match parse_float json_get hash_labels tie Htie c d Hctx ms Hdb); try assumption.
+  - intros ->. discriminate.
+  - lia.
+Qed.
 
 (* ================= the property theorem ================= *)
 Theorem logql_log_partial_parsers_proof :
@@ -641,4 +790,40 @@ Proof.
   split; [reflexivity|]. split; [exact ex3_db_ok|]. split; [reflexivity|]. split.
   { intros m Hm He s Hs. cbn in Hm. destruct Hm as [<-|[]]. vm_compute in He. discriminate. }
   vm_compute; reflexivity.
+Qed.
+
+(* ---- the breakpoint plan: ctx.Limit = 1, yet Plan(script, false) returns both matching lines, oldest first (forward) ---- *)
+Definition bp_db : database :=
+  {| d_gin := [gin_of w_series ("b", "1")]; d_series := [w_series];
+     d_samples := [{| x_fp := 7; x_ts := 1700000000000000005; x_line := "hello"; x_type := 1 |};
+                   {| x_fp := 7; x_ts := 1700000000000000003; x_line := "well"; x_type := 1 |};
+                   {| x_fp := 7; x_ts := 1700000000000000004; x_line := "no"; x_type := 1 |}] |}.
+Lemma bp_db_ok : db_ok ex_ctx bp_db.
+Proof.
+  unfold db_ok, bp_db. cbn [d_gin d_series d_samples]. split; [|split; [|split]].
+  - intros g. split.
+    + intros [<-|[]]. exists w_series, ("b", "1"). cbn. tauto.
+    + intros [s [kv [[<-|[]] [[<-|[]] ->]]]]. now left.
+  - intros s1 s2 [<-|[]] [<-|[]] _. reflexivity.
+  - intros s [<-|[]]. cbn. constructor; [intros []|constructor].
+  - intros x [<-|[<-|[<-|[]]]]; exists w_series; (split; [now left|]); (split; [reflexivity|]); (split; [reflexivity|]);
+      vm_compute; discriminate.
+Qed.
+Example breakpoint_guards_met :
+  in_fragment ex_query || in_fragment2 ex_query = true /\ oracle_ok (RG := no_groups) no_re no_float ex_query /\ ctx_ok ex_ctx = true
+  /\ db_ok ex_ctx bp_db /\ width_guard ex_query = true /\ absent_guard no_re ex_query bp_db /\ c_limit ex_ctx = 1%Z
+  /\ match bp_select ex_query ex_ctx with
+     | Some sel => option_map (map row_out) (eval (RG := no_groups) no_re no_float no_json no_hash tie_id (to_sqldb ex_ctx bp_db) sel)
+     | None => None end
+     = Some [Some {| o_fp := 7; o_labels := [("b", "1")]; o_line := "well"; o_ts := 1700000000000000003 |};
+             Some {| o_fp := 7; o_labels := [("b", "1")]; o_line := "hello"; o_ts := 1700000000000000005 |}].
+Proof.
+  split; [reflexivity|]. split.
+  { intros s Hs. cbn in Hs. destruct Hs as [<-|[<-|[<-|[]]]]; cbn [stage_oracle_ok lf_oracle_ok simple_oracle_ok]; try tauto.
+    split; [intros He; discriminate|exact I]. }
+  split; [reflexivity|]. split; [exact bp_db_ok|]. split; [reflexivity|]. split.
+  { intros m Hm He s Hs. cbn in Hm. destruct Hm as [<-|[<-|[]]].
+    - vm_compute in He. discriminate.
+    - destruct Hs as [<-|[]]. cbn. now left. }
+  split; [reflexivity|]. vm_compute; reflexivity.
 Qed.
